@@ -50,6 +50,7 @@ type Task struct {
 	obj     interface{}
 	ready   func() bool
 	quantum int
+	prio    int
 	fn      func(*Task)
 	which   string
 	started bool
@@ -64,6 +65,11 @@ type SimCfg struct {
 	Horizon      time.Duration // simulated time after which a run that cannot progress is a HANG
 	MaxDecisions int
 	MaxSteps     int64 // per task
+	// PCTDepth > 0 selects the PCT policy (Burckhardt et al.): every task gets a random priority, the
+	// highest-priority enabled task always runs, and at PCTDepth-1 random hook points (drawn in
+	// [0,PCTSpan)) the running task's priority drops below all others. Q and WindowBias are ignored.
+	PCTDepth int
+	PCTSpan  int
 	StarveID     int   // task id not scheduled during [StarveFrom, StarveFrom+StarveLen) decisions unless alone; -1: none
 	StarveFrom   int
 	StarveLen    int
@@ -148,6 +154,9 @@ type Sim struct {
 	cancels    []context.CancelFunc
 	endSync    int64
 	gates      []string
+	hookCount  int
+	pctPoints  []int
+	pctLow     int
 }
 
 // Counters is a small linear table: Go maps are race-instrumented by the runtime even inside
@@ -193,7 +202,18 @@ func NewSim(tape *Tape, cfg SimCfg) *Sim {
 	if cfg.MaxSteps == 0 {
 		cfg.MaxSteps = 2000000
 	}
+	var pts []int
+	if cfg.PCTDepth > 0 {
+		if cfg.PCTSpan < 2 {
+			cfg.PCTSpan = 200
+		}
+		for i := 1; i < cfg.PCTDepth; i++ {
+			pts = append(pts, 1+tape.Draw(LaneSched, cfg.PCTSpan))
+		}
+	}
 	return &Sim{
+		pctPoints:  pts,
+		pctLow:     -1,
 		tape:       tape,
 		cfg:        cfg,
 		yielded:    make(chan struct{}),
@@ -281,6 +301,9 @@ func (s *Sim) newTask(name string, body bool) *Task {
 	t := &Task{ID: len(s.tasks), Name: name, IsBody: body, wake: make(chan int), state: tsRunnable, point: "task.start", Parent: -1}
 	if s.cur != nil {
 		t.Parent = s.cur.ID
+	}
+	if s.cfg.PCTDepth > 0 {
+		t.prio = 1 + s.tape.Draw(LaneSched, 1<<16)
 	}
 	s.tasks = append(s.tasks, t)
 	s.mu.Unlock()
@@ -377,6 +400,18 @@ func (s *Sim) preempt(t *Task, point string) {
 //go:norace
 func (s *Sim) hookPoint(t *Task, point string, window bool) bool {
 	s.Points.Add(point, 1)
+	if s.cfg.PCTDepth > 0 {
+		s.hookCount++
+		for _, cp := range s.pctPoints {
+			if cp == s.hookCount {
+				t.prio = s.pctLow
+				s.pctLow--
+				s.preempt(t, point)
+				return true
+			}
+		}
+		return false
+	}
 	if t.quantum > 0 {
 		t.quantum--
 		if t.quantum == 0 {
@@ -744,9 +779,20 @@ func (s *Sim) Run() {
 				cands = enabled
 			}
 		}
-		t := cands[s.tape.Draw(LaneSched, len(cands))]
+		var t *Task
+		if s.cfg.PCTDepth > 0 {
+			t = cands[0]
+			for _, c := range cands[1:] {
+				if c.prio > t.prio {
+					t = c
+				}
+			}
+			t.quantum = 0
+		} else {
+			t = cands[s.tape.Draw(LaneSched, len(cands))]
+			t.quantum = s.tape.Draw(LaneSched, s.cfg.Q)
+		}
 		s.Decisions++
-		t.quantum = s.tape.Draw(LaneSched, s.cfg.Q)
 		if t != s.last {
 			s.Switches++
 			s.ilHash = fnv(fnv(s.ilHash, strconv.Itoa(t.ID)), t.point)
